@@ -208,7 +208,7 @@ def build_shared_features_map(mod: fx.GraphModule,
                 # distinguish the case in which the number of features must "frozen"
                 # i.e. the case of input-connected or output-connected components,
                 if (
-                    any(feeds_excluded_layer(n, mod, exclude_names, exclude_types) for n in c) or
+                    any(feeds_unprunable_consumer(n, mod, exclude_names, exclude_types) for n in c) or
                     any(is_excluded_layer(n, mod, exclude_names, exclude_types) for n in c) or
                     any(n in get_graph_inputs(mod.graph) for n in c) or
                     any(n in get_graph_outputs(mod.graph) for n in c) or
@@ -223,21 +223,25 @@ def build_shared_features_map(mod: fx.GraphModule,
     return sm_dict
 
 
-def feeds_excluded_layer(n: fx.Node, mod: fx.GraphModule,
-                         exclude_names: Iterable[str],
-                         exclude_types: Iterable[Type[nn.Module]]) -> bool:
+def feeds_unprunable_consumer(n: fx.Node, mod: fx.GraphModule,
+                              exclude_names: Iterable[str],
+                              exclude_types: Iterable[Type[nn.Module]]) -> bool:
     """Returns True if the features of `n` reach (unchanged, flattened or concatenated with others)
-    a layer that PIT could optimize, but that is excluded from the search: its input features
-    cannot be pruned, since it is exported as is."""
+    a consumer whose input features cannot be pruned: a layer that PIT could optimize but that is
+    excluded from the search (it is exported as is), or a network output (its shape must not
+    change). A concatenation starts a new sharing component, hence the explicit walk."""
     stack, seen = list(n.users), set()
     while stack:
         u = stack.pop()
         if u in seen:
             continue
         seen.add(u)
-        if is_excluded_layer(u, mod, exclude_names, exclude_types):
+        if is_excluded_layer(u, mod, exclude_names, exclude_types) or u.op == 'output':
             return True
         if not (u.meta['features_defining'] or u.meta['untouchable']):
+            # `u` still carries the features of `n`
+            if u.meta.get('output_connected', False):
+                return True
             stack.extend(u.users)
     return False
 
